@@ -6,9 +6,12 @@ ASSUMPTIONS = [
     "one VirtualSocket driven by a scripted peer, application, clock and transport (vsock component); "
     "the theorems quantify over every state/event of the Gallina model of VirtualSocket::poll",
     "ACK_DELAY = 40 ms and IMMEDIATE_ACK_EVERY_RMSS = 2 in the compiled crate (re-read on every run)",
-    "assumed-and-monitored (predicate c07_pre_monitor on every implementation trace): after a completed poll, "
-    "consumed_but_unacked_bytes > 0 implies last_consumed_remote_seq_nr > last_sent_ack_nr in the "
-    "tolerance-limited sequence comparison (false only if the ack number ran > 1024 ahead across the u16 wrap, D4)",
+    "D4 class: `ack_to_transmit` compares last_consumed with last_sent_ack_nr through the tolerance-limited SeqNr order; more than "
+    "1024 sequence numbers consumed inside one ACK delay with fewer than 2*mss bytes in all (1025+ one-byte packets across the wrap) "
+    "make it read `nothing to acknowledge` and the delayed ACK is dropped (c07_pre_monitor_refuted, witness by vm_compute); the "
+    "theorems carry the exact invariant instead (c07_dist_ok: last_consumed = last_sent_ack_nr + k mod 2^16 with k <= unacked "
+    "bytes; c07_pre_monitor_g: the comparison form while unacked bytes <= 1024), both proved for every trace and evaluated on "
+    "implementation traces",
     "the receive-window-update trigger is not observable on the fingerprint (rx_window needs UserRx's "
     "last_remaining_rx_window): it is covered by the theorem and by the differential run, not by a predicate",
 ]
@@ -137,7 +140,10 @@ def component(pred_name, shared):
     return c
 
 
-ALL_PREDS = ["c07_immediate_ok", "c07_delayed_ok", "c07_fires_ok", "c07_pre_monitor", "c07_idle_silent_partial",
-             "c07_window_update_ok"]
+# every predicate below is a THEOREM of every model trace (Props/C07.v ..._every_trace / ..._model); c07_pre_monitor itself is
+# FALSE beyond the wrap tolerance (c07_pre_monitor_refuted, D4 class) and was replaced by its exact forms c07_dist_ok (modular
+# distance) and c07_pre_monitor_g (the comparison form while consumed_but_unacked_bytes <= 1024)
+ALL_PREDS = ["c07_immediate_ok", "c07_delayed_ok", "c07_fires_ok", "c07_dist_ok", "c07_pre_monitor_g", "c07_idle_silent_partial",
+             "c07_window_update_ok", "c07_reasm_change_ok", "c07_trigger_ok"]
 COMPONENTS = [component("+".join(ALL_PREDS), True)]
 COMPONENTS[0]["name"] = "vsock_c07"
